@@ -8,6 +8,7 @@ from .. import genengine as ge
 from .. import outparse as op
 
 ID = 'C12'
+ANCHOR_FILES = ['generator/generator_shared.py', 'generator/generator_spa.py', 'generator/generator_ha_sm_hr.py']
 LEVEL = 'exploration'
 NEEDS_DEPS = True
 EVAL_COUNTER = 'files_checked'
